@@ -452,3 +452,31 @@ def double_special_divisors(k: int) -> bool:
             if err_code(e) != 'FOAR0001':
                 return False
     return _ev('idiv', a=x, b=inf) == 0
+
+
+# --- added after round-2 seeded changes: rounding of xs:double values that are not exact decimal ties (exact binary value decides) --------
+
+RDBL = (2.675, 1.115, 2.665, 0.125, 2.5, 1.005, -2.675, 8.345, 0.15, 35612.25, -0.5, 1.45)
+
+
+@ob(budget=200, kind='hunt', bound='x from a table of 12 doubles (9 of them print like a decimal tie but are not one in binary), precision 0..3, '
+                                   'index and precision chosen by the solver: fn:round and fn:round-half-to-even equal the rounding of the '
+                                   'exact binary value computed with fractions (table of values: bug-hunting)',
+    funcs=['elementpath/xpath2/_xpath2_functions.py:evaluate__round_half_to_even', 'elementpath/xpath30/_xpath30_functions.py:evaluate__round'])
+def rounding_inexact_doubles(i: int, p: int) -> bool:
+    """
+    pre: 0 <= i < 12 and 0 <= p <= 3
+    post: _
+    """
+    import math as _m
+    p = 0 if p == 0 else 1 if p == 1 else 2 if p == 2 else 3        # concrete precision on each path (symbolic ints in Decimal.__round__ realise inconsistently)
+    i = [k for k in range(12) if k == i][0]
+    x = RDBL[i]
+    fx = Fraction(x)
+    y = fx * Fraction(10) ** p
+    f = _m.floor(y)
+    half_even = Fraction(f + 1 if y - f > Fraction(1, 2) else f if y - f < Fraction(1, 2) else (f if f % 2 == 0 else f + 1)) / Fraction(10) ** p
+    half_up = Fraction(_m.floor(y + Fraction(1, 2))) / Fraction(10) ** p
+    got_e = _one(T['rhe2'].evaluate(XPathContext(item=1, variables={'a': x, 'p': p})))
+    got_u = _one(T['round2'].evaluate(XPathContext(item=1, variables={'a': x, 'p': p})))
+    return isinstance(got_e, float) and isinstance(got_u, float) and got_e == float(half_even) and got_u == float(half_up)
